@@ -317,3 +317,43 @@ func verifLemma_C28_read_stops_at_failing_callback(k int) {
 		verifrt.Assert(calls == 4, "four-features")
 	}
 }
+
+// C29 (bounded shape): a multipolygon relation becomes an area whose polygons follow its
+// outer / inner way members: every outer way starts a polygon, inner ways join the
+// polygon of the outer way before them, members that are not ways take no part.
+func verifLemma_C29_multipolygon() {
+	src := &MemoryOSMSource{
+		Ways: []osm.Way{
+			{ID: 1, Nodes: []osm.NodeID{1, 2, 3, 1}},
+			{ID: 2, Nodes: []osm.NodeID{4, 5, 6, 4}},
+			{ID: 3, Nodes: []osm.NodeID{7, 8, 9, 7}},
+		},
+		Relations: []osm.Relation{
+			{ID: 9, Tags: osm.Tags{{Key: "type", Value: "multipolygon"}}, Members: []osm.Member{
+				{Type: osm.ElementTypeWay, ID: 1, Role: "outer"},
+				{Type: osm.ElementTypeNode, ID: 20, Role: ""},
+				{Type: osm.ElementTypeWay, ID: 2, Role: "inner"},
+				{Type: osm.ElementTypeRelation, ID: 30, Role: "outer"},
+				{Type: osm.ElementTypeWay, ID: 3, Role: "outer"},
+			}},
+		},
+	}
+	fs, err := NewFeatureSourceFromPBF(src, &BuildOptions{Cores: 1}, nil)
+	verifrt.Assert(err == nil, "source-built")
+	n, seen := 0, 0
+	emit := func(f Feature, g int) error {
+		n++
+		if a, ok := f.(*AreaFeature); ok && a.AreaID == AreaIDFromOSMRelationID(9) {
+			seen++
+			verifrt.Assert(a.Len() == 2, "two-polygons")
+			first, ok0 := a.PathIDs(0)
+			second, ok1 := a.PathIDs(1)
+			verifrt.Assert(ok0 && len(first) == 2 && first[0] == FromOSMWayID(1) && first[1] == FromOSMWayID(2), "inner-way-joins-the-outer-way-before-it")
+			verifrt.Assert(ok1 && len(second) == 1 && second[0] == FromOSMWayID(3), "next-outer-way-starts-a-polygon")
+		}
+		return nil
+	}
+	err = fs.Read(ReadOptions{SkipPoints: true, SkipPaths: true, SkipRelations: true, Goroutines: 1}, emit, nil)
+	verifrt.Assert(err == nil, "read-succeeds")
+	verifrt.Assert(n == 4 && seen == 1, "three-way-areas-and-the-multipolygon-area")
+}
